@@ -4,6 +4,8 @@ import (
 	"fmt"
 	"strings"
 	"time"
+
+	"rcproxy/core/pkg/verifhook"
 )
 
 // ---- C14: routing table converges to the latest valid CLUSTER NODES description ----
@@ -292,8 +294,53 @@ func (d *Driver) setScripts(script []string) {
 	}
 }
 
+// yield points in the refresh goroutine (verifhook.Yield in core/cluster.go): in the "yield" variant the goroutine is
+// parked there for a tape-chosen number of 50 ms rounds, so that ticker() runs against a half-published update
+// (ServerMap already replaced, Replicasets / serverChanged not yet).
+type parkedYield struct {
+	point   string
+	resume  chan struct{}
+	rounds  int
+	decided bool
+}
+
+func (d *Driver) installYield() {
+	verifhook.OnYield = func(point string) {
+		py := &parkedYield{point: point, resume: make(chan struct{})}
+		d.parked = py // only the single refresh goroutine yields; the driver is waiting for quiescence meanwhile
+		<-py.resume
+	}
+}
+
+// serviceYield is called once per fair round by the driver.
+func (d *Driver) serviceYield() {
+	py := d.parked
+	if py == nil {
+		return
+	}
+	if !py.decided {
+		py.decided = true
+		py.rounds = 0
+		if d.parkEnabled {
+			py.rounds = []int{0, 0, 1, 5, 21, 45}[d.T.Choose(6)]
+		}
+		d.count("yield_parked_" + py.point)
+		d.trace("refresh goroutine parked at %s for %d rounds", py.point, py.rounds)
+	}
+	if py.rounds > 0 && d.parkEnabled {
+		py.rounds--
+		return
+	}
+	d.parked = nil
+	close(py.resume)
+	d.quiesce()
+}
+
 func runC14(d *Driver, res *Result) {
 	p := d.P
+	if p.Variant == "yield" {
+		d.installYield()
+	}
 	d.Hold = map[int]bool{0: true}
 	d.boot()
 	res.Converged = d.converge(15 * time.Second)
@@ -303,6 +350,7 @@ func runC14(d *Driver, res *Result) {
 	}
 	const tick = 50 * time.Millisecond
 	lastKind := "none"
+	d.parkEnabled = true // the refresh goroutine is only delayed during the history, never in the phases a bound is measured in
 	for _, hs := range p.Hist {
 		prev := d.C.Truth
 		d.C.Truth = &p.Topos[hs.Topo]
@@ -328,8 +376,14 @@ func runC14(d *Driver, res *Result) {
 		d.fairRunTick(hs.Secs*1000/50/2, nil, tick)
 	}
 	// final phase: every node serves the final description D
+	d.parkEnabled = false
 	d.setScripts(nil)
 	final := d.C.Truth
+	if p.Variant == "yield" {
+		// the injected stall of the refresh goroutine has ended; let it work off what queued up behind it (at most the three
+		// buffered probe replies) before the convergence bound starts - bounds are never measured while a fault is in effect
+		d.fairRunTick(120, nil, tick)
+	}
 	mark := len(d.C.Log)
 	var tD time.Duration = -1
 	deadline := time.Now().Add(30 * time.Second)
